@@ -146,6 +146,27 @@ def very_long(rng, heavy=False):
     return out
 
 
+def sparse_charge_seqs(rng, n):
+    """long, weakly charged chains (0 < FCR < 0.05, 21-200 residues): lone charges, adjacent pairs, a pair closer than a blob"""
+    out = []
+    for _ in range(n):
+        L = rng.randint(21, 200)
+        s = [rng.choice("GSQNTAP") for _ in range(L)]
+        k = max(1, min(rng.randint(1, 4), L // 21))
+        pos = rng.sample(range(L), k)
+        if k >= 2 and rng.random() < 0.6:
+            pos[1] = min(L - 1, pos[0] + rng.randint(1, 5))        # two charges within one blob
+        for i in pos:
+            s[i] = rng.choice("KRDE")
+        out.append("".join(s))
+    return out
+
+
+# words over the residue letters that can also be read differently: three-letter codes, float literals
+AMBIGUOUS_WORDS = ["ASPARGLYS", "SERARGASPLYS", "METSERASPARGTHRLYSGLYASPVALARG", "ALAGLYSERTHRVALTRPTYRPHEMETCYS", "HISASNGLNILEASPLYSARGASPSER",
+                   "NAN", "INF", "INFINITY", "nan", "Inf", "GLY", "ASP", "LYS", "ARGLYS"]
+
+
 def two_charge_seqs(nmax, step=1):
     """exactly two charged residues at every length 2..nmax (ends), all three sign pairs"""
     for n in range(2, nmax + 1, step):
@@ -174,6 +195,11 @@ def ws_lines(lines, rng):
 CLAMP_BAND = ["GKKKGG", "GEEGEG", "KKEEEGK", "KEEEGGK", "KEGEGEK", "KGGEEEK", "KGGGGGK", "EKKGKGE", "EGKKKEE", "EGGGGGE", "GKKKKKG",
               "KKEEGEEK", "KEEEEEGK", "KGEEEEGK", "KGGEEEGK", "EKKKKKGE", "EEGKKKKG", "EGKKKKGE", "GEEEEEGK", "KGGEEEGGK",
               "KEGSGSGSGSDR", "DGPGGGK", "EGKKKKGE", "KGEEEEGK"]
+
+
+# sequences whose own delta EXCEEDS the heuristic delta-max by more than 10 % on the pinned tree (kappa > 1.1; known finding F-C01-1) and
+# short compositions from which a block swap can reach such an arrangement
+ABOVE_MAX = ["KEEEEK", "KKEEEEK", "EGKKKE", "KEEEEKK", "KKEEEEEK", "KKKEEEEEK", "EEKEKEEK", "KKEEEEEEEEKK", "KKKEEEEEEEEEER"]
 
 
 def structured_frozen(s):
